@@ -53,7 +53,6 @@ def answerMds (fs : List (String × String)) : String :=
     let D := (get "D" >>= String.toNat?).getD 0
     let exact := get "exact" == some "1"
     let lowrank := get "lowrank" == some "1"
-    let bracket := get "bracket" != some "0"
     match modelPre method inp N D data with
     | none => "bad-data"
     | some B =>
@@ -72,7 +71,7 @@ def answerMds (fs : List (String × String)) : String :=
         --    Gram–Schmidt pass loses (λ_max/λ_min)·2^-53 of orthogonality — up to 2^-28 on the anisotropic families
         --    (retained eigenvalue ratios up to 2^25).  The embedding-level checks below stay at 2^-30 for both solvers.
         let εeig := if get "solver" == some "rand" then pow2 (-20) else εrel
-        let ce := certify B.get V.get lam.get scale εeig bracket
+        let ce := certify B.get V.get lam.get scale εeig true
         --    … and, for sizes up to `robustmax`, the extremality certificate that is sound for approximate eigenvectors
         let robustMax := (get "robustmax" >>= String.toNat?).getD 0
         let robTxt := if N ≤ robustMax && ce.ok then robustExtremal B.get V.get lam.get scale εeig else "skipped"
@@ -92,7 +91,9 @@ def answerMds (fs : List (String × String)) : String :=
         let lamPlus : Vec d Rat := fun j => if lam.get j < 0 then 0 else lam.get j
         let sqBad := (List.finRange d).any fun j =>
           !nanCols.contains j.1 &&
-            (sD.get j < 0 || absR (sD.get j * sD.get j - lamPlus j) > εtight * scale)
+            -- per column, RELATIVE to that column's own eigenvalue: a column whose eigenvalue is tiny compared with the
+            -- leading one is constrained as strictly as the leading one (s j = 0 exactly when lam j ≤ 0)
+            (sD.get j < 0 || absR (sD.get j * sD.get j - lamPlus j) > εtight * lamPlus j)
         let ymax := maxAbsM Y.get
         let Ymasked : Mat N d Rat := fun i j => if nanCols.contains j.1 then 0 else Y.get i j
         let Pmasked : Mat N d Rat := fun i j => if nanCols.contains j.1 then 0 else post V.get sD.get i j
@@ -106,11 +107,27 @@ def answerMds (fs : List (String × String)) : String :=
         let ry := Cert.residMax B.get Ymasked lam.get
         let yscale := if ymax == 0 then 1 else ymax
         let nanTiny := nanCols.all fun j => if h : j < d then absR (lam.get ⟨j, h⟩) ≤ εrel * scale else true
+        --    column j has squared norm = the retained eigenvalue lam j⁺, judged RELATIVE to lam j⁺ for every eigenvalue that
+        --    is significant against the rounding noise of the solver (lam j⁺ > 2^-47·scale; noise ≈ N·2^-53·scale)
+        let colBad := (List.finRange d).find? fun j =>
+          !nanCols.contains j.1 && decide (lamPlus j > pow2 (-47) * scale) &&
+            decide (absR (sumFin N (fun i => Y.get i j * Y.get i j) - lamPlus j) > εeig * lamPlus j)
+        --    on inputs whose centred PSD matrix has rank ≤ d (flag `fullrec`, exact rank computed by the generator side):
+        --    Y·Yᵀ reproduces the model's matrix — the fine check for Kernel PCA (no distance leg there)
+        let fullrec := get "fullrec" == some "1"
+        let recBad : Option Cmp :=
+          if fullrec && nanCols.isEmpty then
+            let G := DMat.ofFn (gramRows Y.get)
+            let c := cmpMat G.get B.get (εrel * scale)
+            if c.isBad then some c else none
+          else none
         let yTxt :=
           if !nanCols.isEmpty then
             (if nanTiny then "FAIL-nan-zero-eigenvalue" else "FAIL-nan-negative-eigenvalue") ++ s!":cols{nanCols.length}"
           else if g > εrel * scale then s!"FAIL-gram:{showMag g}>{showMag (εrel * scale)}"
           else if ry > εrel * scale * yscale then s!"FAIL-span:{showMag ry}"
+          else if colBad.isSome then s!"FAIL-column-norm:col{(colBad.map (·.1)).getD 0}"
+          else if recBad.isSome then "FAIL-gram-reconstruction-" ++ (recBad.map Cmp.show).getD ""
           else s!"ok:gram{showMag g}:span{showMag ry}"
         -- 5. exact recovery of the pairwise distances on inputs of rank ≤ d
         let distTxt :=
@@ -127,7 +144,8 @@ def answerMds (fs : List (String × String)) : String :=
               | c => "FAIL-" ++ c.show
           else "na"
         let nexact := (if cpre.isExact then 1 else 0) + (if cpost.isExact then 1 else 0)
-        let napprox := (if cpre.isExact then 0 else 1) + (if cpost.isExact then 0 else 1) + 4
+        let napprox := (if cpre.isExact then 0 else 1) + (if cpost.isExact then 0 else 1) + 3 +
+          (if distTxt == "na" then 0 else 1) + (if fullrec then 1 else 0)
         s!"pre={preTxt} eig={ce.text} robust={robTxt} post={postTxt} y={yTxt} dist={distTxt} cmp=exact:{nexact},approx:{napprox}"
       | _, _, _, _ => "bad-observation"
   | _, _, _, _, _ => "bad-case"
